@@ -40,6 +40,7 @@ def alphabet(v):
         pub(1, 1, 4), pub(1, 2, 0),
         (1, 2, 1), (1, 3, 1), (1, 4, 1), (1, 4, 2), (1, 5, 1),
         (1, 6, 1, 1), (1, 6, 2, 2), (1, 6, 1, 3), (1, 7, 1, 1), (1, 7, 2, 2),
+        (1, 6, 1, 4), (1, 6, 2, 5), (1, 7, 1, 6),
         (1, 8), (1, 9, 0, 0),
         (1, 11, 1), (1, 12, 1), (1, 13), (1, 14), (1, 15),
     ]
@@ -401,7 +402,7 @@ def gen_shutdown(v, rng, n=4000):
     connection (violation, handler error, protocol-service error, DISCONNECT, unsolicited ack), then the
     remaining completions: the flush of the buffered control messages during shutdown"""
     cases = []
-    killers = [(1, 2, 1), (1, 6, 1, 3), pub(1, 1, 4), (1, 9, 0, 0), (1, 4, 6), (1, 3, 2), (1, 5, 2)]
+    killers = [(1, 2, 1), (1, 6, 1, 3), (1, 6, 1, 4), (1, 7, 2, 5), pub(1, 1, 4), (1, 9, 0, 0), (1, 4, 6), (1, 3, 2), (1, 5, 2)]
     if v == 5:
         killers += [(1, 9, 0, 7), (1, 10), pub(1, 1, 0, alias=3), (1, 9, 4, 0)]
     else:
